@@ -4,7 +4,8 @@ import PyrollModel.GrooveRepDriver
     generated tables. -/
 def main : IO Unit :=
   GrooveRepDriver.main {
-    useAbs := Gen.C10.depth_abs, pieces := Gen.C10.pieces, dflt := Gen.C10.depth_default,
+    useAbs := Gen.C10.depth_abs, argOps := Gen.C10.depth_arg_ops,
+    interpXOps := Gen.C10.interp_x_ops, interpZOps := Gen.C10.interp_z_ops, pieces := Gen.C10.pieces, dflt := Gen.C10.depth_default,
     segments := Gen.C10.segments, xSpecs := Gen.C10.surface_x_specs, xOuter := Gen.C10.surface_x_outer,
     xAngleSet := Gen.C10.surface_x_angle_set, xAngleDefault := Gen.C10.surface_x_angle_default,
     surfaceY := Gen.C10.surface_y, transposed := Gen.C10.interp_grid_transposed,
